@@ -338,6 +338,48 @@ func init() {
 			}
 		}
 		x.note("views of the Trim/Cut families checked against the implied positions on %d calls", nViews)
+		// nor on what the SAME buffer held during an earlier call (a result remembered by address): a needle buffer
+		// and a haystack buffer are refilled in place with contents of the same length and every function is called
+		// again; each result must be the one private copies of the new contents give
+		{
+			fills := [][2]string{{"abcdef", "\u212a\u212a"}, {"\u212a\u212a", "abcdef"}, {"kkkkkk", "\u017f\u017f\u017f"}, {"xyz", "XYZ"}, {"\xff\xfe\xfd", "\ufffd"}, {"aaa", "\u4e16"}}
+			hays := []string{"kk", "abcdef", "xKkx", "sss", "\ufffd", "xyz-xyz-\u4e16"}
+			nRe := 0
+			type rec struct {
+				fn        string
+				s, t      []byte
+				got, held string
+			}
+			for _, fl := range fills {
+				nb := make([]byte, len(fl[0]))
+				hb := make([]byte, len(fl[0]))
+				for _, other := range hays {
+					// all calls on the buffers first (both fillings, no other call in between that could evict what a
+					// function remembered), the reference calls on private copies only afterwards
+					var recs []rec
+					for phase := 0; phase < 2; phase++ {
+						copy(nb, fl[phase])
+						copy(hb, fl[phase])
+						for _, fn := range allSS {
+							d := fnByName[fn]
+							for _, pr := range [][2][]byte{{[]byte(other), nb}, {hb, []byte(other)}} {
+								got := d.byt(pr[0], pr[1], 0)
+								recs = append(recs, rec{fn, append([]byte{}, pr[0]...), append([]byte{}, pr[1]...), got, fl[1-phase]})
+							}
+						}
+					}
+					for _, r := range recs {
+						want := fnByName[r.fn].byt(append([]byte{}, r.s...), append([]byte{}, r.t...), 0)
+						nRe++
+						if r.got != want {
+							x.relFail("relation", r.fn, &Case{Fn: r.fn, S: r.s, T: r.t},
+								fmt.Sprintf("bytcase.%s returns %s on a buffer refilled in place (it held %q during earlier calls) but %s on a private copy of the same bytes", r.fn, r.got, r.held, want))
+						}
+					}
+				}
+			}
+			x.note("buffers refilled in place between calls: %d calls compared with private copies", nRe)
+		}
 		// results must not depend on whether the arguments share memory, nor on nil versus empty
 		x.aliasedViews(allSS)
 		x.nilArgs()
